@@ -67,6 +67,10 @@ def wrap(form, x):
         return np.array([x])
     if form == 4:
         return np.array([[x]])
+    if form == 6:       # integral values in a small integer dtype (a row of an int16 / int32 column)
+        return np.array([x]).astype(np.int16 if abs(x) < 30000 else np.int32)
+    if form == 7:
+        return np.int32(x)
     return pd.DataFrame({"a": [x]})
 
 
@@ -185,6 +189,14 @@ def margin(a, b):
     return abs(a - b) / max(1.0, abs(a), abs(b))
 
 
+def _rtol(xs, n):
+    """absolute tolerance of the comparisons with the exact-rational specification: 1e-12, or the first-order rounding bound of n
+    binary64 operations on values of the stream's magnitude (a running mean of observations near 4e7 carries ~1e-8 of rounding,
+    which the cumulative sums inherit; for the ordinary dyadic streams this stays at 1e-12 and the relative 1e-9 rule decides)"""
+    scale = max([abs(float(x)) for x in xs] + [1.0])
+    return max(1e-12, 16 * 2.0 ** -52 * scale * max(1, n))
+
+
 def spec_cusum(cfg, xs, tr, model=None):
     """
     Checks every step of an implementation trace against the declarative CUSUM test.
@@ -258,9 +270,9 @@ def spec_cusum(cfg, xs, tr, model=None):
             what = f"counters (total, since) = ({total}, {since}), expected ({i + 1}, {n})"
         elif st == "D" and since <= b:
             what = "alarm during the burn-in"
-        elif (it is None) != (tf is None) or (it is not None and not core.close(it, tf)):
+        elif (it is None) != (tf is None) or (it is not None and not core.close(it, tf, abs_=_rtol(xs, 1))):
             what = f"target = {it}, mean of the estimation window = {tf}"
-        elif (isd is None) != (sf is None) or (isd is not None and not core.close(isd, sf)):
+        elif (isd is None) != (sf is None) or (isd is not None and not core.close(isd, sf, abs_=_rtol(xs, 8))):
             what = f"sd_hat = {isd}, population std of the estimation window = {sf}"
         elif st != exp_drift:
             if status == "thin":
@@ -308,7 +320,7 @@ def spec_ph(cfg, xs, tr):
                 for k, c in enumerate(COLS):
                     if k == 4:
                         continue
-                    if not core.close(row[k], float(spec_rows[k][j])):
+                    if not core.close(row[k], float(spec_rows[k][j]), abs_=_rtol(xs, j + 2)):
                         what = f"{c} = {row[k]}, definition gives {float(spec_rows[k][j])}"
                         break
             if what is None:
@@ -567,12 +579,27 @@ def evaluate(ctx, cases, tag, twins=True, with_model=True):
     return stats
 
 
+def int_stream(rng, b, nseg, level):
+    """integral observations of large magnitude (sums of a handful of them leave the range of their small integer dtype)"""
+    return [float(int(level) + int(round(8 * x))) for x in gen_stream(rng, b, nseg)]
+
+
 def random_cases(rng, n_c, n_p, nseg):
     cases = []
     for cfg in cusum_cfgs(rng, n_c):
         cases.append((cfg, gen_stream(rng, cfg["burn_in"], nseg)))
     for cfg in ph_cfgs(rng, n_p):
         cases.append((cfg, gen_stream(rng, cfg["burn_in"], nseg)))
+    # observations handed over in small integer dtypes (int16 near 9000, int32 near 4e7): the statistics are those of the values
+    for k, (form, level) in enumerate(((6, 9000), (6, 40000000), (7, 40000000), (6, -9000))):
+        c = ph_cfgs(rng, 8)[k * 2 + 1]; c.update(form=form, burn_in=[2, 5][k % 2])
+        cases.append((c, int_stream(rng, c["burn_in"], max(3, nseg // 2), level)))
+        c = cusum_cfgs(rng, 8)[k * 2 + 1]; c.update(form=form, burn_in=[2, 5][k % 2], target=None, sd=None)
+        cases.append((c, int_stream(rng, c["burn_in"], max(3, nseg // 2), level)))
+    # a burn-in far longer than any plausible internal buffer (first-epoch and post-drift estimates read exactly burn_in observations)
+    for b in (520, 800):
+        c = cusum_cfgs(rng, 4)[1]; c.update(burn_in=b, target=None, sd=None, threshold=5.0, delta=0.25, form=0)
+        cases.append((c, gen_stream(rng, b, 3, lo=20, hi=60)))
     return cases
 
 
